@@ -85,7 +85,12 @@ class ArgSpec:
             case int():
                 return str(arg)
             case float():
-                return str(arg)
+                text = repr(arg)
+                if "e" in text and "." not in text:
+                    # the NUMBER token requires a `.` before an exponent
+                    mantissa, exponent = text.split("e")
+                    text = f"{mantissa}.0e{exponent}"
+                return text
 
     @staticmethod
     def _spec_parameter_list_type_str(name: str, arg: ParameterListType) -> str:
